@@ -161,8 +161,8 @@ impl Prop for C15 {
     }
     fn runs(&self, tier: Tier) -> u64 {
         match tier {
-            Tier::Quick => 12_000,
-            Tier::Thorough => 400_000,
+            Tier::Quick => 300_000,
+            Tier::Thorough => 5_000_000,
             Tier::Tiny => 50,
         }
     }
@@ -417,7 +417,8 @@ impl StepHandler for H15 {
             for part in o.out.split(|b| *b == b';' || *b == b'\n') {
                 if let Ok(t) = std::str::from_utf8(part) {
                     if let Ok(v) = t.parse::<u32>() {
-                        if v > 32767 && pred.executed.iter().all(|(_, c, _)| matches!(c, Contrib::StatReg(..))) {
+                        let only_status_queries = pure_contrib(world, s).map(|c| !c.is_empty() && c.iter().all(|x| matches!(x, Contrib::StatReg(..)))).unwrap_or(false);
+                        if v > 32767 && only_status_queries {
                             out.push(Finding::new("C15.bit15", "reported_value_has_bit15_set", i, format!("{} answered {}", describe_msg(s), v)));
                         }
                     }
